@@ -51,6 +51,7 @@ TNext ==
        [] Ev.e = "DeleteDuplicates" -> DeleteDuplicates
        [] Ev.e = "SetTerm" -> SetTerm(Ev.u, Ev.q)
        [] Ev.e = "SetText" -> SetText(Ev.u, Ev.q)
+       [] Ev.e = "SetTermForm" -> SetTermForm(Ev.u, Ev.f, Ev.t)
        [] Ev.e = "SetConvention" -> SetConvention(Ev.u, Ev.w)
        [] Ev.e = "Extract" -> UNCHANGED svars          \* basis / maximal part: builds a new schema, the source is untouched
        [] Ev.e = "Fault" -> FALSE
@@ -69,6 +70,9 @@ PropSchema ==
                     /\ it.vc = r.vc
                     /\ it.args = [k \in DOMAIN r.args |-> [name |-> r.args[k].name, type |-> TypeStr(r.args[k].type)]]
          /\ ToSet(it.deps) = Deps(cst, u)
+         /\ ("forms" \in DOMAIN it) => LET fm == FormsOf(c) IN
+               /\ Len(it.forms) = Cardinality(DOMAIN fm)
+               /\ \A k \in DOMAIN it.forms : it.forms[k].f \in DOMAIN fm /\ fm[it.forms[k].f] = it.forms[k].t
     /\ seen.sameAsReloaded            \* clause (ii): the incremental state equals a copy reloaded from the saved document
     /\ SchemaInv
 \* C13 on recorded extractions (events "Extract": operation, selection, refused?, members, new aliases, statuses of the result)
